@@ -28,6 +28,7 @@ PCHIP_SRC = common.REPO / "emu_base/math/pchip_torch.py"
 F16 = "pchip-nan-gradient"
 ENERGY = "energy-gradient"
 INPLACE = "intermediate-observable-gradient"
+ZEROCOT = "zero-cotangent-raises"
 HEADER_AD = """From Coq Require Import ZArith List PrimFloat.
 Import ListNotations.
 From EV Require Import Base.Arith Model.Pchip Model.PchipAD.
@@ -445,6 +446,10 @@ def gen_sv_annihilation(rng, n, variant):
             spec["omega"][s_] = list(zero_row)
             if dmode == "zero":
                 spec["delta"][s_] = list(zero_row)
+    elif variant == "all-idle":           # nothing ever happens: occupations stay 0 and every gradient is exactly 0
+        spec["psi0"] = None
+        spec["loss"] = rng.choice(["occupation", "occupation-mid"])
+        spec["omega"] = [list(zero_row) for _ in range(steps)]
     elif variant == "zero-H-step":        # a step with H = 0 (needs U = 0), any position, any state
         spec["U"] = [[0.0] * n for _ in range(n)]
         s_ = rng.randrange(steps)
@@ -470,7 +475,7 @@ def gen_sv_annihilation(rng, n, variant):
     return spec
 
 
-SV_ANNIHILATION = ("lead-zero-omega", "lead-zero-omega", "zero-H-step", "eigen-psi0", "basis-cotangent")
+SV_ANNIHILATION = ("lead-zero-omega", "lead-zero-omega", "zero-H-step", "eigen-psi0", "basis-cotangent", "all-idle")
 
 
 def dense_ref_loss(spec, tens):
@@ -610,9 +615,13 @@ def sv_grad_check(ctx, spec, max_fd=6):
                 key = ENERGY  # part (c) of the known finding, nothing else
             if spec["loss"] == "occupation-mid" and "modified by an inplace operation" in str(ex):
                 key = INPLACE
+            why = ""
+            if isinstance(ex, RecursionError) and all(float(rgr[k].abs().max()) == 0.0 for k in names):
+                key = ZEROCOT  # the true gradient is exactly zero: the cotangent handed to backward is the zero vector
+                why = " [every gradient is exactly 0: backward starts Lanczos from the zero cotangent]"
             ctx.violation(f"differentiating the {spec['loss']} loss of a noiseless emu-sv run raised "
                           f"{type(ex).__name__}: {str(ex)[:160]} (n={spec['n']}, phases {spec['phimode']}, "
-                          f"krylov tolerance {tol:g})", {"case": tspec, "finding_key": key, "kind": "sv"})
+                          f"krylov tolerance {tol:g}){why}", {"case": tspec, "finding_key": key, "kind": "sv"})
             summary["outcome"] = "raised"
             return summary
         for k, g in grads.items():
@@ -978,7 +987,7 @@ def run(ctx):
             ctx.count_case({"kind": "sv", **s}, nontrivial=n >= 2)
     # exact-annihilation situations (H psi = 0, eigenvector states, H = 0 steps, basis-vector cotangents)
     ann = {}
-    for i in range(ctx.n(10, 80)):
+    for i in range(ctx.n(12, 96)):
         variant = SV_ANNIHILATION[i % len(SV_ANNIHILATION)]
         spec = gen_sv_annihilation(rng, 1 + (i // len(SV_ANNIHILATION)) % 4, variant)
         s = sv_grad_check(ctx, spec, max_fd=3)
